@@ -57,9 +57,9 @@ def check(ctx):
         if not sends:
             continue
         n_send += 1
-        conds = p.cond_texts(orig=True)
-        v2 = 'self._useV2' in conds
-        isf = any(c.replace(' ', '') in ("element.pytype=='<f'orelement.pytype=='<d'",) for c in conds)
+        fk = p.fact_keys()
+        v2 = fact_key('self._useV2', True) in fk
+        isf = fact_key("element.pytype == '<f' or element.pytype == '<d'", True) in fk
         stores = [e for e in p.events if e.kind == 'store']
         data = [e.node.value for e in stores if norm(e.node.targets[0]) == 'pk.data']
         final = data[-1] if data else None
@@ -122,9 +122,9 @@ def check(ctx):
         snd = [i for i, e in enumerate(p.events) if e.kind == 'call' and method_call(e.node, 'send_packet')]
         if not snd:
             continue
-        conds = p.cond_texts(orig=True)
-        v2 = 'self._useV2' in conds
-        misc = 'pk.channel == MISC_CHANNEL' in conds
+        fk = p.fact_keys()
+        v2 = fact_key('self._useV2', True) in fk
+        misc = fact_key('pk.channel == MISC_CHANNEL', True) in fk
         want = 'pk.data[:3]' if (v2 and misc) else 'pk.data[:2]' if v2 else 'pk.data[:1]'
         st = [norm(e.orig.value) for e in p.events[:snd[0]] if e.kind == 'store' and norm(e.node.targets[0]) == 'self._lock_pattern']
         ctx.inst('R4', run, 'pattern-before-send[%s%s]' % ('V2' if v2 else 'V1', ',misc' if misc else ''), st[-1:] == [want],
